@@ -15,10 +15,10 @@ for d in sorted(os.listdir(base)):
         continue
     meta = json.load(open(os.path.join(p, 'meta.json')))
     props = [meta['property']] + extra.get(d, [])
-    out = subprocess.run(['/verif/tools/try_mutant.sh', p] + props, capture_output=True, text=True).stdout
+    out = subprocess.run(['/verif/tools/try_mutant_scratch.sh', p] + props, capture_output=True, text=True).stdout
     caught = []
     for line in out.splitlines():
-        m = re.match(r'VIOLATION property=(C\d+) replay=/verif/replay/C\d+/(\S+?)(\.replay\.json|\.replay\.txt|\.missing\.txt)( no-failing-input-found)?$', line)
+        m = re.match(r'VIOLATION property=(C\d+) replay=\S*?/C\d+/(\S+?)(\.replay\.json|\.replay\.txt|\.missing\.txt)( no-failing-input-found)?$', line)
         if m:
             caught.append((m.group(1), m.group(2), 'missing' if 'missing' in m.group(3) else ('unconfirmed' if m.group(4) else 'confirmed')))
     summary = meta.get('summary', '').split('. ')[0][:140]
